@@ -151,7 +151,7 @@ fn cmd_check(id: &str, tier: &str) {
             harness_errors.push(format!("harness panic in scenario {}: {hp}", sc.name));
         }
         // determinism: re-execute a slice of the runs sequentially and compare trace hashes
-        let k = (n / 100).clamp(20.min(n), 300);
+        let k = if n < 100 { 1 } else { (n / 100).clamp(20, 300) };
         for idx in 0..k {
             let rs = run::run_seed(prng::mix(seed, sc.salt), idx);
             let r = (sc.f)(idx, rs, thorough);
